@@ -36,9 +36,10 @@ OPEN_STATEMENTS = [
     'equivalence of the Z-sectors of the fixed qubits): checked numerically (eigvalsh, 1e-9) on every generated case; '
     'proved: the qubit re-indexing is the order-preserving bijection with "remove" exactly at the removed positions '
     '(taper_reindex_spec) and the Pauli-table invariant of the fixed position (fixed_position_invariant)',
-    'reduce_terms_agrees_on_codespace for the whole loop (iteration over the updated stabilizer list, `+=` pruning across '
-    'iterations, existence of fixed positions): proved is fix_single_term_equiv (any operator times a stabilizer acts like '
-    'the operator on every stabilized state, in Module.End); the loop is checked by the exact Spec oracle',
+    'reduce_terms_agrees_on_codespace is proved for the loop of _reduce_terms run without pruning (tol = 0: '
+    'reduce_terms_agrees_on_codespace_partial, any stabilizer list, manual or automatic positions); missing for the live '
+    'tolerance 1e-8: that no partial sum of `new_terms +=` is non-zero but below the tolerance along the run; the checks of '
+    'reduce_number_of_terms, the existence of fixed positions and taper_off_qubits on top of it: Spec oracle',
     '_reduce_terms_keep_length / _lookup_term: correspondence + Spec oracle only',
     'project_onto_sector_sound for whole terms / operators: proved are the factor-level sector semantics '
     '(sector_factor_spec) and the order-preserving re-indexing (project_reindex_order_preserving); the operator-level '
